@@ -24,6 +24,8 @@ type builder struct {
 	types []string // shared type declarations
 	seen  map[string]bool
 	n     int
+	// alwaysHeader: emit the import header even when no case mentions machine.
+	alwaysHeader bool
 }
 
 func (b *builder) add(id, src string, opts ...string) {
@@ -87,7 +89,7 @@ func (b *builder) packages(prefix, header string, per int) []*tv.Package {
 			}
 		}
 		prelude := "\n"
-		if needs {
+		if needs || b.alwaysHeader {
 			prelude = header + "\n"
 		}
 		for _, imp := range []string{"log", "fmt"} {
